@@ -211,6 +211,96 @@ async fn targeted(ctx: &mut Ctx, ty: &str, p: usize, j: u32, repeats: u32, case:
     }
 }
 
+/// REP received a request (owes a reply); further recv calls are polled and abandoned
+/// with p bytes of the next request arrived; the owed reply must still be accepted and
+/// must go to the requester with its envelope.
+async fn rep_owes_reply(ctx: &mut Ctx, p: usize, j: u32, repeats: u32, case: &Value) {
+    let mut sock = Sock::new("REP", None);
+    let a = match Peer::attach(&sock, "DEALER", Some(b"A")).await {
+        Ok(x) => x,
+        Err(e) => {
+            ctx.inconclusive(format!("C14 attach: {e}"));
+            return;
+        }
+    };
+    let b = match Peer::attach(&sock, "REQ", Some(b"B")).await {
+        Ok(x) => x,
+        Err(e) => {
+            ctx.inconclusive(format!("C14 attach: {e}"));
+            return;
+        }
+    };
+    let req_a = rc::tagged(1, 1, &[4]);
+    let mut wire_a = vec![b"route".to_vec(), vec![]];
+    wire_a.extend(req_a.clone());
+    a.send(&wire_a);
+    match recv_now(&mut sock).await {
+        Some(Ok(m)) if m == req_a => {}
+        other => {
+            ctx.inconclusive(format!("C14 rep_owes: first recv {other:?}"));
+            return;
+        }
+    }
+    // the next request (from B) arrives byte by byte while recv calls are abandoned
+    let mut wire_b = vec![vec![]];
+    wire_b.extend(rc::tagged(2, 1, &[3]));
+    let bytes_b = rc::message(&wire_b);
+    b.conn.feed_held(&bytes_b);
+    let p = p.min(bytes_b.len() - 1);
+    let mut released = 0usize;
+    for rep in 0..repeats {
+        let mut rv = Managed::new(sock.recv());
+        let want = (p + rep as usize).min(bytes_b.len() - 1);
+        if want > released {
+            b.conn.release(want - released);
+            released = want;
+        }
+        let mut polled = 0;
+        while polled < j {
+            if polled == 0 || rv.woken() {
+                polled += 1;
+                if let Poll::Ready(x) = rv.poll_once() {
+                    ctx.violation_with("C14/partial-request-surfaced/REP", format!("recv returned {x:?} with {released} of {} bytes arrived", bytes_b.len()), case.clone());
+                    return;
+                }
+            } else {
+                break;
+            }
+        }
+        drop(rv);
+        ctx.count("drops");
+        ctx.count("rep_drops_while_reply_owed");
+    }
+    let reply = rc::tagged(3, 1, &[2]);
+    match sim::complete(sock.send(&reply)).await {
+        Ok(Ok(())) => {}
+        other => {
+            ctx.violation_with(
+                "C14/owed-reply-refused-after-abandoned-recv/REP",
+                format!("a request was received and not yet answered; after {repeats} abandoned recv calls ({j} polls each) send returned {other:?}"),
+                case.clone(),
+            );
+            return;
+        }
+    }
+    let mut want = vec![b"route".to_vec(), vec![]];
+    want.extend(reply.clone());
+    if a.out_msgs().ok() != Some(vec![want]) || !b.out_msgs().map(|m| m.is_empty()).unwrap_or(false) {
+        ctx.violation_with(
+            "C14/owed-reply-misrouted-after-abandoned-recv/REP",
+            format!("reply after abandoned recv calls: requester got {:?}, the other client got {:?}", a.out_msgs(), b.out_msgs()),
+            case.clone(),
+        );
+        return;
+    }
+    // and the second request is still delivered whole afterwards
+    b.conn.release_all();
+    match recv_now(&mut sock).await {
+        Some(Ok(m)) if rc::parse_tag(&m, 0).map(|t| t.origin == 2).unwrap_or(false) => {}
+        other => ctx.violation_with("C14/message-lost/REP", format!("request that was arriving during the abandoned calls: {other:?}"), case.clone()),
+    }
+}
+
 impl Prop for C14 {
     fn id(&self) -> &'static str {
         "C14"
@@ -222,6 +312,13 @@ impl Prop for C14 {
             for j in 0..=4u32 {
                 for repeats in 1..=3u32 {
                     v.push(json!({"kind": "targeted_batch", "ty": ty, "j": j, "repeats": repeats}));
+                }
+            }
+            if ty == "REP" {
+                for j in 0..=3u32 {
+                    for repeats in 1..=3u32 {
+                        v.push(json!({"kind": "rep_owes_batch", "j": j, "repeats": repeats}));
+                    }
                 }
             }
             if ty == "REQ" {
@@ -249,6 +346,18 @@ impl Prop for C14 {
                     ctx.sample(&format!("targeted_{ty}"), || one.clone());
                     sim::run(targeted(ctx, &ty, p, u(case, "j") as u32, u(case, "repeats") as u32, &one));
                 }
+            }
+            "rep_owes_batch" => {
+                for p in 0..26usize {
+                    let one = json!({"kind": "rep_owes", "p": p, "j": u(case, "j"), "repeats": u(case, "repeats")});
+                    ctx.eval(hash_str(&one.to_string()), true);
+                    ctx.sample("rep_owes_reply", || one.clone());
+                    sim::run(rep_owes_reply(ctx, p, u(case, "j") as u32, u(case, "repeats") as u32, &one));
+                }
+            }
+            "rep_owes" => {
+                ctx.eval(1, true);
+                sim::run(rep_owes_reply(ctx, u(case, "p") as usize, u(case, "j") as u32, u(case, "repeats") as u32, case));
             }
             "targeted" => {
                 ctx.eval(1, true);
@@ -304,6 +413,7 @@ impl Prop for C14 {
             ("drops_with_partial_frame", 500),
             ("drops_with_full_message_buffered", 200),
             ("targeted/REQ", 400),
+            ("rep_drops_while_reply_owed", 500),
             ("targeted/REP", 400),
             ("targeted/PULL", 400),
             ("req_send_refused_after_abandon", 0),
